@@ -194,4 +194,22 @@ var props = map[string]*Prop{
 			{Name: "loop-family", Pkg: "pkg/diff", Test: "TestVerifC12", Shards: sh(16, 16), TimeoutS: sh(1800, 3600)},
 		},
 	},
+	"C16": {
+		Level: "exploration",
+		Rule: "directory trees assembled from a 13-feature menu (second file in a package, nested packages, real _test.go files, names that merely look like tests, hidden directories, vendor directories, a >10MB file, a syntax-error file, a type-error file, methods+nested closures+generic functions, hidden/vendor directories nested inside a package, function literals in package-level initialisers, directory names containing dots): every subset of size <=2 (quick) / <=3 (thorough) plus the full set; each tree is run through the built sfw binary (`check`, `check --strict`, `scan`); oracle = independent walk + go/ast inventory: every non-test .go file outside vendor/hidden directories appears exactly once, nothing else appears, every declared function/method/function literal of a cleanly analysable file is reported with its file and line, unanalysable files carry an error, strict mode fails iff some file has an error, scan counts at least the inventory. Non-trivial = distinct tree.",
+		Assumptions: []string{"a file with a type error may be reported either with an error or with whatever functions could be fingerprinted (the statement only requires that it is not silently dropped)", "files that share a package with an unanalysable file are allowed to fail too"},
+		Bounds:      map[string]string{"quick": "subsets <=2 of 13 features + full set (93 trees)", "thorough": "subsets <=3 + full set (379 trees)"},
+		Units: []Unit{
+			{Name: "tree-features", Pkg: "internal/cli", Test: "TestVerifC16", Shards: sh(16, 16), TimeoutS: sh(1800, 3600), DeadlineS: sh(900, 3000), Builds: []Build{{Pkg: "cmd/sfw", Out: "sfw"}}},
+		},
+	},
+	"C17": {
+		Level: "exploration",
+		Rule: "adversarial families at growing sizes: n identical calls on one value and n if-statements with changed conditions (zipper, n = 50..1600/3200), doubling expression DAGs inside a loop / used by an inner loop / as a loop bound (depth 6..60), 5..80 nested loops with and without dependent starts, 500..2600 if-blocks (beyond the 5000-block guard), string literals up to 1MB; for every member the real GenerateFingerprint, ExtractTopology and Zipper run while three hook counters (instruction-equivalence comparisons, SCEV body evaluations, SCEV renamer invocations) are read; oracle: no panic, counters within explicit polynomial bounds (2*100^2 + 4*100*(instructions+blocks); 60*(instr+1)*(loops+1); 400*(instr+1)*(loops+1)), at most ~linear growth between consecutive sizes, oversize functions answered with the OVERSIZED marker, string caps respected; a watchdog converts a runaway counter (50x the bound) into a violation instead of a hang. Crash-freedom over small programs is exercised by the whole program family in C02-C05/C09 (every variant goes through the same entry points). Non-trivial = distinct family member.",
+		Assumptions: []string{"work is measured in counted operations only, never in seconds", "the fuzzer-mutated-sources clause of the statement is not decided by this family of technique (random mutation is sampling); the bounded-exhaustive program family stands in for it"},
+		Bounds:      map[string]string{"quick": "sizes up to 1600 / depth up to 60", "thorough": "adds size 3200"},
+		Units: []Unit{
+			{Name: "adversarial-families", Pkg: "pkg/diff", Test: "TestVerifC17", Shards: sh(8, 8), TimeoutS: sh(1800, 3600), DeadlineS: sh(900, 3000)},
+		},
+	},
 }
